@@ -12,7 +12,7 @@ use std::rc::Rc;
 pub const DEF: PropDef = PropDef {
     id: "C20",
     level: "exploration",
-    rule: "a corpus of programs (succeeding, failing at parse time on various lines, failing at run time after k lines of output, failing with messages that quote values of 60..5000 characters / elements (ASCII and multi-byte), reading input, printing multi-line strings, building dictionaries) x 7 standard-input contents (empty, one line, several lines, no final newline, non-ASCII, a line that is not valid UTF-8, leading blank lines) x sub-commands exec (separate pipes and stdout+stderr merged into one pipe), lint, parse; plus usage errors (unknown sub-command, missing argument, missing file, directory as file) and dictionary programs run as separate processes under 8 hash seeds (LD_PRELOAD getrandom shim); oracle (independent of src/cli): stdout equals what frontend::parser::parse + exec::exec_using write for the same text and input; `parse` prints the pretty Debug tree of the library's parse; `lint` prints one line per library diagnostic (its line and issue) followed by one tab-indented line per suggestion and nothing else; errors go to stderr as `<prefix naming parse/runtime>: <library message>`, on the merged pipe the error line comes after all output, usage errors exit non-zero; non-trivial = every case (a process is spawned and compared); distinct = distinct (program, input, mode)",
+    rule: "a corpus of programs (succeeding, failing at parse time on various lines, failing at run time after k lines of output, failing with messages that quote values of 60..5000 characters / elements (ASCII and multi-byte), reading input, printing multi-line strings, building dictionaries) x 7 standard-input contents (empty, one line, several lines, no final newline, non-ASCII, a line that is not valid UTF-8, leading blank lines) x sub-commands exec (separate pipes and stdout+stderr merged into one pipe), lint, parse; plus 10 file forms (missing final newline, CRLF, byte-order mark, multi-line strings, 3000 lines (more output than a pipe buffer) with and without a final runtime error) under 12 file names (blanks, non-ASCII, NBSP, tab, apostrophe, no / double / upper-case extension, hidden, nested directories, a directory named like an option) x 4 sub-command modes; plus usage errors (unknown sub-command, missing argument, missing file, directory as file) and dictionary programs run as separate processes under 8 hash seeds (LD_PRELOAD getrandom shim); oracle (independent of src/cli): stdout equals what frontend::parser::parse + exec::exec_using write for the same text and input; `parse` prints the pretty Debug tree of the library's parse; `lint` prints one line per library diagnostic (its line and issue) followed by one tab-indented line per suggestion and nothing else; errors go to stderr as `<prefix naming parse/runtime>: <library message>`, on the merged pipe the error line comes after all output, usage errors exit non-zero; non-trivial = every case (a process is spawned and compared); distinct = distinct (program, input, mode)",
     assumptions: &["NO_COLOR=1 for both sides", "exit status after parse / runtime errors and with no arguments at all is observed and reported, not judged (the property does not state it)", "the binaries are rebuilt from /repo by ./check before the run"],
     build,
     exhaustive: true,
@@ -33,6 +33,27 @@ pub struct C20 {
     cases: Space<(usize, Mode)>,
     usage: Vec<(&'static str, Vec<&'static str>, bool)>,
     dir: std::path::PathBuf,
+    /// (source text, mode, file name relative to the scratch directory)
+    named: Space<(String, Mode, &'static str)>,
+}
+
+/// file names a path-handling slip would trip over
+pub const FILE_NAMES: &[&str] = &["my prog.rock", "prög €.rock", ".hidden", "noext", "UPPER.ROCK", "a.b.c.rock", "sub dir/inner/p.rock", "x\u{a0}y.rock", "tab\there.rock", "it's.rock", "-.rock/p.rock", "p.rock.bak"];
+
+fn named_sources() -> Vec<String> {
+    let long: String = (0..3000).map(|i| format!("say {}\n", i)).collect();
+    vec![
+        "say 1\nlisten to x\nsay x\n".to_string(),
+        "say 1\nsay zed\nsay 2\n".to_string(),
+        "say 1\nput 1 into\n".to_string(),
+        "put 5 into x\nput 5 into x\nsay x plus x\n".to_string(),
+        "say 1".to_string(),
+        "say 1\r\nsay 2\r\n".to_string(),
+        "\u{feff}say 1\n".to_string(),
+        "say \"é😀\"\nsay \"a\nb\"\n".to_string(),
+        long.clone(),
+        format!("{}say zed\n", long),
+    ]
 }
 
 pub fn bin_path() -> std::path::PathBuf {
@@ -126,6 +147,12 @@ fn build(tier: Tier) -> Box<dyn Check> {
             ("no arguments at all", vec![], false),
         ],
         dir,
+        named: {
+            let srcs: Space<String> = Space::of(named_sources());
+            let names: Space<&'static str> = Space::of(FILE_NAMES.to_vec());
+            let modes = Space::of(vec![Mode::Exec(1, false), Mode::Exec(1, true), Mode::Lint, Mode::Parse]);
+            srcs.product(&names, |s, n| (s, n)).product(&modes, |(s, n), m| (s, m, n))
+        },
     })
 }
 
@@ -292,12 +319,15 @@ fn lossy(b: &[u8]) -> String {
 
 impl Check for C20 {
     fn families(&self) -> Vec<(String, u64)> {
-        vec![("program x input x sub-command".into(), self.cases.len()), ("usage".into(), self.usage.len() as u64)]
+        vec![("program x input x sub-command".into(), self.cases.len()), ("usage".into(), self.usage.len() as u64), ("file name x file form x sub-command".into(), self.named.len())]
     }
     fn describe(&self, fam: usize, idx: u64) -> Value {
         if fam == 1 {
             let (name, args, _) = &self.usage[idx as usize];
             json!({"text": format!("rrss {}", args.join(" ")), "usage_case": name})
+        } else if fam == 2 {
+            let (src, m, name) = self.named.get(idx);
+            json!({"text": format!("{:?} on file {:?} holding {:?}", m, name, crate::engine::orch::truncate(&src, 200)), "mode": format!("{:?}", m)})
         } else {
             let (p, m) = self.cases.get(idx);
             json!({"text": format!("{:?} on {:?}", m, self.programs[p]), "mode": format!("{:?}", m), "program": self.programs[p]})
@@ -325,10 +355,16 @@ impl Check for C20 {
             }
             return;
         }
-        let (p, mode) = self.cases.get(idx);
-        let src = &self.programs[p];
-        std::fs::create_dir_all(&self.dir).ok();
-        let path = self.dir.join(format!("p{}.rock", p));
+        let (src_owned, mode, file_name): (String, Mode, String) = if fam == 2 {
+            let (s, m, n) = self.named.get(idx);
+            (s, m, format!("named-{}/{}", idx, n))
+        } else {
+            let (p, mode) = self.cases.get(idx);
+            (self.programs[p].clone(), mode, format!("p{}.rock", p))
+        };
+        let src = &src_owned;
+        let path = self.dir.join(&file_name);
+        std::fs::create_dir_all(path.parent().unwrap()).ok();
         if std::fs::write(&path, src).is_err() {
             panic!("cannot write {}", path.display());
         }
